@@ -12,7 +12,7 @@ CHECKS = {
 CHECKS["C01"] = dict(
    technique="Coq proof (frame theorem over a heap model of the instance machinery: every copy-on-write call writes only cells allocated during the call; Hoare-style judgement, mutual induction on fuel) + differential correspondence model vs implementation on canonical object graphs evaluated by vm_compute",
    text="Theorems C01_cow_call_writes_no_existing_cell / C01_deepcopy_writes_no_existing_cell / C01_core_respects_watermark are proved in Coq for every class table without do_not_copy=True classes (frozen included), every heap, receiver, helper, argument vector (valid or not), every outcome (return or exception) and every callback failure point: a call without _inplace=True writes no heap cell that existed before it. The model (coq/Inst/Model.v, ~1000 lines following mutation.py / core.py / scalar.py / toplevel.py / collections/*.py branch by branch) is tied to /repo on every run: generated class tables and operation histories are executed by model and implementation, and the canonical object graph (content and sharing) of all live roots is compared after every operation; the C01 oracle (pre-existing graph unchanged after a copy-on-write call) is evaluated in Coq on the implementation's own observations.",
-   note="Trusted: Coq kernel + vm_compute; hand-written model and Python container/deepcopy/attribute semantics (validated by correspondence only); harness graph canonicaliser; callback purity contract. Crash points covered: user-callback failures at their 1st..3rd invocation (any invocation in the theorem); line-level injection inside library code is not modelled (theorem covers callback failure points and every error the model can raise). KeyedList/KeyedSet-typed attributes, masked attributes and do_not_copy=True classes are outside the model.",
+   note="Trusted: Coq kernel + vm_compute; hand-written model and Python container/deepcopy/attribute semantics (validated by correspondence only); harness graph canonicaliser; callback purity contract. Crash points: user-callback failures (any invocation in the theorem; 1st..3rd in the correspondence) and every error the model can raise are covered by the theorem; exceptions injected at executed lines of library code are explored on the implementation only (oracle: pre-existing graph unchanged), not proved. KeyedList/KeyedSet-typed attributes, masked attributes and do_not_copy=True classes are outside the model.",
    design="4 C01")
 CHECKS["C04"] = dict(
    technique="Coq proof (frame theorem: every constructor call, copy-on-write call and deepcopy, and every in-place operation on a frozen instance, writes no pre-existing heap cell whatever the outcome; the full statement is refuted for multi-keyword in-place update/transform and recorded as a known finding) + differential correspondence with failure injection, evaluated by vm_compute",
